@@ -23,8 +23,9 @@ Three toggles switch between the code as it is and the repaired code (`known_fin
 
 * `f11` — `done_backward_projection` creates its batch inside the guarded block (as is: before the
           unguarded `upgrade_to_exclusive().await`);
-* `f12` — `input_session()` waits for the phase lock first and creates batch/epoch inside a guarded
-          block (as is: batch and epoch bump first, then the unguarded wait for the lock);
+* `f12` — `input_session()` waits for the phase lock first and creates batch/epoch in a section that is
+          not cancelled half-way (originally: batch and epoch bump first, then the unguarded wait for the
+          lock; repaired in /repo by 7a67ce5, where the section after the lock contains no await);
 * `f40` — the guarded publication blocks keep their own `ActiveComputationGuard` (as is: the detached
           continuation holds no phase guard, an input session can start while it still publishes).
 
@@ -43,7 +44,11 @@ structure Cfg where
   f40 : Bool
   deriving DecidableEq, Repr
 
-def Cfg.asIs : Cfg := ⟨false, false, false⟩
+/-- the tree before any repair -/
+def Cfg.original : Cfg := ⟨false, false, false⟩
+/-- the code as it is now: F12 was repaired in /repo by 7a67ce5 (lock first; the rest of `input_session()` has
+    no await any more — the model's guarded state `sG0` is passed without suspension) -/
+def Cfg.asIs : Cfg := ⟨false, true, false⟩
 def Cfg.fixed : Cfg := ⟨true, true, true⟩
 
 /-- Where the (innermost frame of the) task is suspended. -/
